@@ -190,9 +190,11 @@ unsafe impl GlobalAlloc for SimAlloc {
         if s.busy || !s.live.contains_key(&(p as usize)) {
             if s.on && !s.busy {
                 s.busy = true;
-                sim_err(format!("realloc of a pointer that no allocation returned (size {} align {})", layout.size(), layout.align()));
+                sim_err(format!("realloc of a pointer that no allocation returned (old size {} align {})", layout.size(), layout.align()));
+                // hand out a fresh block so that the call returns and the error is reported precisely
+                let p = unsafe { self.place(new_size.max(1), layout.align(), 0) };
                 s.busy = false;
-                return std::ptr::null_mut();
+                return p;
             }
             return unsafe { System.realloc(p, layout, new_size) };
         }
@@ -356,6 +358,10 @@ fn check_sim_err(r: &mut Run, what: &str) {
 /// with scratch allocations through Cleanup.
 fn run_one(family: &str, seed: u64, idx: u64, ch: Choices, trace: bool, fail_call: Option<u64>) -> Run {
     let mut r = Run { ch, hash: 0xcbf29ce484222325, trace_on: trace, trace: vec![], faults: BTreeMap::new(), steps: 0, family: family.to_string(), seed, idx };
+    unsafe {
+        CUR_RUN = &mut r as *mut Run;
+        CUR_IDX = idx;
+    }
     {
         let s = sim();
         s.live = BTreeMap::new();
@@ -404,6 +410,8 @@ fn run_one(family: &str, seed: u64, idx: u64, ch: Choices, trace: bool, fail_cal
                     if sim().allocs != a0 || sim().frees != f0 {
                         r.violate("ALLOC", "cabi_realloc", "zero-sized allocation touched the allocator".into());
                     }
+                    // the host keeps the (empty) block: it may grow it or free it later
+                    blocks.push(Model { ptr: p, align, data: vec![] });
                     continue;
                 }
                 if !sim().live.contains_key(&(p as usize)) {
@@ -432,6 +440,11 @@ fn run_one(family: &str, seed: u64, idx: u64, ch: Choices, trace: bool, fail_cal
                     2 => (old * 2).min(1 << 20).max(1),
                     _ => draw_size(&mut r).max(1),
                 };
+                // only a non-zero old size requires a non-zero new size
+                let new = if old == 0 && r.ch.pick(4) == 0 { 0 } else { new };
+                if old == 0 {
+                    r.fault("realloc_from_empty");
+                }
                 let align = blocks[i].align;
                 let ptr = blocks[i].ptr;
                 guest_calls += 1;
@@ -459,6 +472,13 @@ fn run_one(family: &str, seed: u64, idx: u64, ch: Choices, trace: bool, fail_cal
                 }
                 if p.is_null() || (p as usize) % align != 0 {
                     r.violate("ALLOC", "cabi_realloc", format!("cabi_realloc(block,{old},{align},{new}) returned a null or misaligned pointer"));
+                }
+                if new == 0 {
+                    // empty -> empty
+                    if p as usize != align {
+                        r.violate("ALLOC", "cabi_realloc", format!("zero-sized reallocation with alignment {align} did not return the alignment value"));
+                    }
+                    continue;
                 }
                 match sim().live.get(&(p as usize)) {
                     Some(b) if b.size == new && b.align == align => {}
@@ -494,7 +514,12 @@ fn run_one(family: &str, seed: u64, idx: u64, ch: Choices, trace: bool, fail_cal
                 r.note(3, size_class(b.data.len()));
                 r.tr(format!("cabi_dealloc(block#{i}, {}, {})", b.data.len(), b.align));
                 check_sim_err(&mut r, "cabi_dealloc");
-                if sim().frees != f0 + 1 {
+                if b.data.is_empty() {
+                    r.fault("free_of_empty_block");
+                    if sim().frees != f0 {
+                        r.violate("ALLOC", "cabi_dealloc", "freeing a zero-sized block touched the allocator".into());
+                    }
+                } else if sim().frees != f0 + 1 {
                     r.violate("ALLOC", "cabi_dealloc", "cabi_dealloc did not free the block exactly once".into());
                 }
             }
@@ -578,6 +603,7 @@ fn run_one(family: &str, seed: u64, idx: u64, ch: Choices, trace: bool, fail_cal
         }
     }
     if fail_call.is_some() {
+        unsafe { CUR_RUN = std::ptr::null_mut() };
         return r;
     }
     // end of run: everything the host still owns is verified and freed
@@ -596,6 +622,7 @@ fn run_one(family: &str, seed: u64, idx: u64, ch: Choices, trace: bool, fail_cal
         let n = sim().live.len();
         r.violate("ALLOC", "leak", format!("{n} blocks are still allocated after everything was released"));
     }
+    unsafe { CUR_RUN = std::ptr::null_mut() };
     r
 }
 
@@ -606,9 +633,85 @@ fn run_seed(seed: u64, fam: &str, idx: u64) -> u64 {
     mix(mix(seed, family_seed(fam)), idx)
 }
 
+static mut CUR_RUN: *mut Run = std::ptr::null_mut();
+static mut CUR_IDX: u64 = 0;
+
+/// A panic inside the code under test (e.g. one of its own assertions) is a
+/// violation; an abort (handle_alloc_error outside the failure-injecting slice,
+/// or a memory fault) is reported as a crash of the current run.
+fn install_hooks() {
+    std::panic::set_hook(Box::new(|info| {
+        sim().on = false;
+        let msg = info.payload().downcast_ref::<&str>().map(|s| s.to_string()).or_else(|| info.payload().downcast_ref::<String>().cloned()).unwrap_or("panic".into());
+        let loc = info.location().map(|l| l.file().to_string()).unwrap_or_default();
+        let first = msg.lines().next().unwrap_or("").to_string();
+        unsafe {
+            if !CUR_RUN.is_null() {
+                let site = if loc.contains("cabi_realloc") { "cabi_realloc" } else if loc.contains("cabi_dealloc") { "cabi_dealloc" } else { "code under test" };
+                (*CUR_RUN).violate("PANIC", site, format!("panic in {}: {first}", loc.rsplit('/').next().unwrap_or("")));
+            }
+        }
+        println!("HARNESS-ERROR {}", jstr(&format!("panic outside a run at {loc}: {first}")));
+        std::process::exit(2);
+    }));
+    unsafe extern "C" {
+        fn signal(sig: i32, handler: usize) -> usize;
+        fn write(fd: i32, buf: *const u8, n: usize) -> isize;
+        fn _exit(code: i32) -> !;
+    }
+    extern "C" fn on_fatal(sig: i32) {
+        unsafe {
+            let s = format_crash(sig, CUR_IDX);
+            write(1, s.0.as_ptr(), s.1);
+            _exit(4)
+        }
+    }
+    fn format_crash(sig: i32, idx: u64) -> ([u8; 96], usize) {
+        let mut b = [0u8; 96];
+        let mut n = 0;
+        let mut put = |s: &[u8], b: &mut [u8; 96], n: &mut usize| {
+            for c in s {
+                b[*n] = *c;
+                *n += 1;
+            }
+        };
+        put(b"CRASH signal=", &mut b, &mut n);
+        let mut digits = |mut v: u64, b: &mut [u8; 96], n: &mut usize| {
+            let mut t = [0u8; 20];
+            let mut i = 0;
+            if v == 0 {
+                t[0] = b'0';
+                i = 1;
+            }
+            while v > 0 {
+                t[i] = b'0' + (v % 10) as u8;
+                v /= 10;
+                i += 1;
+            }
+            for j in 0..i {
+                b[*n] = t[i - 1 - j];
+                *n += 1;
+            }
+        };
+        digits(sig as u64, &mut b, &mut n);
+        put(b" family=alloc run=", &mut b, &mut n);
+        digits(idx, &mut b, &mut n);
+        put(b"\n", &mut b, &mut n);
+        (b, n)
+    }
+    unsafe {
+        for sig in [11, 7, 6, 4, 8] {
+            signal(sig, on_fatal as *const () as usize);
+        }
+    }
+}
+
 fn main() {
     let args: Vec<String> = std::env::args().collect();
     let cmd = args.get(1).map(|s| s.as_str()).unwrap_or("");
+    if cmd != "failone" {
+        install_hooks();
+    }
     match cmd {
         "run" => {
             let fam = args[2].clone();
